@@ -25,24 +25,26 @@ BOUNDS = {
 ASSUMPTIONS = ['scheduling granularity = source line of hotxlfp code + calls of ply.lex Lexer.input/token/clone; a lost update '
                'inside one source line is outside the model (GIL: bytecode is the atomic step)',
                'two threads on the *same* parser are outside the statement and not explored',
-               'solo outcome = outcome of the same formula alone on an identical fresh parser']
+               'solo outcome = outcome of the same formula alone on a fresh parser with the same bindings (the two parsers of an execution carry different bindings)']
 
 TFORMULAS = ['SUM(1,2)+3', '"x"&"y"', '1/0', 'nosuchvar', 'FN(2)*va', 'A1+B2', '1+', 'IF(1<2,MAX(1,5),0)']
 
 
-def make_parser(env):
+def make_parser(env, tag=0):
+    """the two parsers of an execution carry DIFFERENT bindings (tag), so that an evaluation reaching the other
+    parser's variable, function or listener shows in its outcome"""
     p = env.new_parser()
-    p.set_variable('va', 7)
-    p.set_function('FN', lambda x: x + 1)
-    p.on('callCellValue', lambda cell, setter: setter(3))
+    p.set_variable('va', 7 + 100 * tag)
+    p.set_function('FN', lambda x: x + 1 + 1000 * tag)
+    p.on('callCellValue', lambda cell, setter: setter(3 + 10 * tag))
     return p
 
 
-def solo(env, text):
-    key = ('solo', text)
+def solo(env, text, tag=0):
+    key = ('solo', text, tag)
     cache = env.__dict__.setdefault('_c03solo', {})
     if key not in cache:
-        p = make_parser(env)
+        p = make_parser(env, tag)
         try:
             cache[key] = env.out(p.parse(text))
         except Exception as e:
@@ -89,11 +91,11 @@ class Threads(Sub):
     def check(self, env, case):
         i, j, start, bound, first = case[:5]
         texts = (TFORMULAS[i], TFORMULAS[j])
-        want = [solo(env, t) for t in texts]
+        want = [solo(env, t, k) for k, t in enumerate(texts)]
         pkgdir = os.path.join(snapshot.snapshot_dir(), 'hotxlfp')
 
         def make():
-            ps = [make_parser(env), make_parser(env)]
+            ps = [make_parser(env, 0), make_parser(env, 1)]
             bodies = [lambda p=ps[0]: p.parse(texts[0]), lambda p=ps[1]: p.parse(texts[1])]
             return bodies, None
 
@@ -161,12 +163,12 @@ def cold_execution(payload):
     texts = payload['texts']
     pkgdir = os.path.join(snapshot.snapshot_dir(), 'hotxlfp')
     if payload.get('solo') is not None:
-        p = make_parser(env)
+        p = make_parser(env, payload['solo'])
         try:
             return {'out': env.out(p.parse(texts[payload['solo']]))}
         except Exception as e:
             return {'out': ['x', type(e).__name__]}
-    ps = [make_parser(env), make_parser(env)]
+    ps = [make_parser(env, 0), make_parser(env, 1)]
     bodies = [lambda p=ps[0]: p.parse(texts[0]), lambda p=ps[1]: p.parse(texts[1])]
     ex = sched.Execution(bodies, payload['choices'], pkgdir, start=payload['start']).run()
     outs = []
@@ -262,16 +264,18 @@ class Nested(Sub):
                         for site in (0, 1, 2):
                             yield [o, 6, t, site, [i, t2]]
 
-    def build(self, env, hook):
+    def build(self, env, hook, tag=0):
+        """every parser of a case carries DIFFERENT bindings (tag): an evaluation that picks up another parser's
+        variable, function or listener gives a different value, not the same one by coincidence"""
         p = env.new_parser()
-        p.set_variable('va', 7)
+        p.set_variable('va', 7 + 100 * tag)
 
         def fn(x):
             hook('fn')
-            return x + 1
+            return x + 1 + 1000 * tag
         p.set_function('FN', fn)
-        p.on('callCellValue', lambda cell, setter: (hook('cell'), setter(3)))
-        p.on('callRangeValue', lambda s, e, setter: (hook('range'), setter([[1, 2], [3, 4]])))
+        p.on('callCellValue', lambda cell, setter: (hook('cell'), setter(3 + 10 * tag)))
+        p.on('callRangeValue', lambda s, e, setter: (hook('range'), setter([[1 + 10 * tag, 2], [3, 4]])))
         p.on('callVariable', lambda name, setter: hook('var'))
         p.on('callFunction', lambda name, args, setter: hook('callFunction'))
         return p
@@ -281,15 +285,16 @@ class Nested(Sub):
         outer_text, inner_text = OUTER[o], INNER[i]
         nohook = lambda kind: None
         want_outer = env.out(self.build(env, nohook).parse(outer_text))
-        want_inner = env.out(self.build(env, nohook).parse(inner_text))
+        TAG = {'same': 0, 'other-prebuilt': 1, 'other-fresh': 3}
+        want_inner = env.out(self.build(env, nohook, TAG[TARGETS[t]]).parse(inner_text))
         st = {'n': 0, 'level': 0, 'inner': None, 'fired': False, 'fired2': False, 'third': None, 'q': None,
               'count': 0, 'bad_inner': None}
         sites = None if site == 'all' else (site if isinstance(site, list) else [site])
 
-        def mk():
+        def mk(tag):
             """a parser whose callbacks report to the controller together with the parser itself"""
             cell = {}
-            p = self.build(env, lambda kind: ctl(cell['p'], kind))
+            p = self.build(env, lambda kind: ctl(cell['p'], kind), tag)
             cell['p'] = p
             return p
 
@@ -301,7 +306,7 @@ class Nested(Sub):
                     st['fired'] = True
                     st['count'] += 1
                     target = TARGETS[t]
-                    q = prebuilt if target == 'other-prebuilt' else (mk() if target == 'other-fresh' else outer)
+                    q = prebuilt if target == 'other-prebuilt' else (mk(3) if target == 'other-fresh' else outer)
                     st['q'] = q
                     st['level'] = 1
                     try:
@@ -314,16 +319,17 @@ class Nested(Sub):
             if st['level'] == 1 and me is st['q'] and deeper is not None and not st['fired2']:
                 st['fired2'] = True
                 tgt = TARGETS[deeper[1]]
-                q2 = third if tgt == 'other-prebuilt' else (mk() if tgt == 'other-fresh' else st['q'])
+                q2 = third if tgt == 'other-prebuilt' else (mk(4) if tgt == 'other-fresh' else st['q'])
+                st['tag3'] = 2 if tgt == 'other-prebuilt' else (4 if tgt == 'other-fresh' else TAG[TARGETS[t]])
                 st['level'] = 2
                 try:
                     st['third'] = env.out(q2.parse(INNER[deeper[0]]))
                 finally:
                     st['level'] = 1
 
-        prebuilt = mk()
-        third = mk()
-        outer = mk()
+        prebuilt = mk(1)
+        third = mk(2)
+        outer = mk(0)
         env.evals += 4
         try:
             got_outer = env.out(outer.parse(outer_text))
@@ -342,7 +348,7 @@ class Nested(Sub):
         if got_outer != want_outer:
             return fail('%s: outer outcome %r, solo %r' % (desc, got_outer, want_outer), want_outer, got_outer)
         if st['fired2']:
-            want3 = env.out(self.build(env, nohook).parse(INNER[deeper[0]]))
+            want3 = env.out(self.build(env, nohook, st['tag3']).parse(INNER[deeper[0]]))
             if st['third'] != want3:
                 return fail('%s: third-level outcome %r, solo %r' % (desc, st['third'], want3), want3, st['third'])
         return None
